@@ -65,10 +65,12 @@ func newWorker(wc *workerConfig) *worker {
 func (w *worker) run(ctx context.Context) error {
 	st, err := w.getPipe(ctx)
 	if err != nil {
+		w.stopped(err)
 		return err
 	}
 	qr, err := w.prepareQuery(st.Destination)
 	if err != nil {
+		w.stopped(err)
 		return err
 	}
 
@@ -119,6 +121,15 @@ func (w *worker) run(ctx context.Context) error {
 	w.logger.Warn("Stopped; pos=", qr.Pos, ", err=", err)
 	return nil
 }
+
+// stopped closes the sink and marks the worker as stopped when run could not start: a worker that stays "running" in
+// the forwarder's worker map without its goroutine is never replaced by syncWorkers
+func (w *worker) stopped(err error) {
+	_ = w.sink.Close()
+	atomic.StoreInt32(&w.state, wsStopped)
+	w.logger.Warn("Stopped before the first query, err=", err)
+}
+
 func (w *worker) stopGracefully() {
 	if atomic.CompareAndSwapInt32(&w.state, wsRunning, wsStopping) {
 		w.logger.Info("Stopping...")
